@@ -1618,7 +1618,7 @@ impl TieredEngine {
         loop {
             let raw = self.hot_tier.knn_search(query, fetch);
             let scanned = raw.len();
-            let mut kept = self.filter_hot_knn_results_to_canonical(raw);
+            let mut kept = self.filter_hot_knn_results_to_canonical(query, raw);
             if scanned < fetch || kept.len() >= limit {
                 kept.truncate(limit);
                 return kept;
@@ -1627,10 +1627,14 @@ impl TieredEngine {
         }
     }
 
-    fn filter_hot_knn_results_to_canonical(&self, hot_results: Vec<(u64, f32)>) -> Vec<(u64, f32)> {
-        hot_results
+    fn filter_hot_knn_results_to_canonical(
+        &self,
+        query: &[f32],
+        hot_results: Vec<(u64, f32)>,
+    ) -> Vec<(u64, f32)> {
+        let mut kept: Vec<(u64, f32)> = hot_results
             .into_iter()
-            .filter_map(|(doc_id, distance)| {
+            .filter_map(|(doc_id, _scanned_distance)| {
                 let Some((hot_embedding, hot_coherence)) =
                     self.hot_tier.peek_with_coherence(doc_id)
                 else {
@@ -1646,7 +1650,13 @@ impl TieredEngine {
                     hot_coherence,
                     "hot-tier k-NN candidate",
                 ) {
-                    CanonicalVectorState::Match => Some((doc_id, distance)),
+                    CanonicalVectorState::Match => {
+                        // The scan and this check are two observations of the mirror: an overwrite
+                        // may have replaced it in between. Report the distance of the embedding
+                        // that was just validated, never the scanned one.
+                        let distance = self.hot_tier.distance_to(query, &hot_embedding);
+                        distance.is_finite().then_some((doc_id, distance))
+                    }
                     CanonicalVectorState::TokenMismatch | CanonicalVectorState::LocalCorruption => {
                         self.discard_stale_hot_mirror(doc_id, "hot-tier k-NN candidate");
                         None
@@ -1654,7 +1664,9 @@ impl TieredEngine {
                     CanonicalVectorState::Missing => None,
                 }
             })
-            .collect()
+            .collect();
+        kept.sort_by(|a, b| a.1.total_cmp(&b.1).then_with(|| a.0.cmp(&b.0)));
+        kept
     }
 
     fn filter_search_results_to_canonical(
@@ -1965,7 +1977,8 @@ impl TieredEngine {
                     {
                         Ok(Ok(hot)) => {
                             let scanned = hot.len();
-                            hot_results = self.filter_hot_knn_results_to_canonical(hot);
+                            hot_results =
+                                self.filter_hot_knn_results_to_canonical(&normalized_query, hot);
                             if hot_results.len() < scanned && scanned >= k * 2 {
                                 // Stale mirrors took slots of the truncated scan; they are
                                 // discarded now, so rescan for the candidates they displaced.
